@@ -193,4 +193,5 @@ C16_commit_identity_source
 C16_no_join_after_stop_called
 -/
 /- OPEN_STATEMENTS
+C16_starts_with_join_ids
 -/
